@@ -738,6 +738,8 @@ fn wl_mpmc_inner<TX: TxOps, RX: RxOps>(
     let cancelled = AtomicU64::new(0);
     let completed = AtomicU64::new(0);
     let stream_bad = AtomicU64::new(0);
+    // tag -> return stamp of the first poll of its send future if that poll was Pending (the send took effect then)
+    let parked_at = std::sync::Mutex::new(HashMap::<u64, u64>::new());
     let mut logs: Vec<Vec<LogEv>> = vec![];
     let mut verdict = Verdict::Finished;
     // (buffered, parked receiver tasks, parked sender tasks, closed)
@@ -745,7 +747,7 @@ fn wl_mpmc_inner<TX: TxOps, RX: RxOps>(
     std::thread::scope(|s| {
         let mut hs = vec![];
         for i in 0..n {
-            let (producers_left, cancelled, completed, stream_bad, run) = (&producers_left, &cancelled, &completed, &stream_bad, run.clone());
+            let (producers_left, cancelled, completed, stream_bad, parked_at, run) = (&producers_left, &cancelled, &completed, &stream_bad, &parked_at, run.clone());
             let tx = if i < producers { txs.pop() } else { None };
             let rx = if i >= producers { rxs.pop() } else { None };
             hs.push(s.spawn(move || {
@@ -775,9 +777,11 @@ fn wl_mpmc_inner<TX: TxOps, RX: RxOps>(
                         let how = pick_drive(&mut rng);
                         // a send that is given up is cancelled explicitly, so that the ledger stays exact:
                         // cancel() hands the value back unless it has already been taken
+                        let mut reg = 0u64;
                         let ok = log!(lg, run, i, 1u8, tag, {
                             let mut fut = Box::pin(tx.send(tag));
                             let o = drive_pinned(&run, i, fut.as_mut(), how, 2);
+                            reg = run.tasks[i].t_reg_ret.load(Relaxed);
                             match o {
                                 Outcome::Ready(Ok(())) => {
                                     completed.fetch_add(1, Relaxed);
@@ -794,6 +798,11 @@ fn wl_mpmc_inner<TX: TxOps, RX: RxOps>(
                             }
                         });
                         if ok {
+                            // this attempt is the one that took effect (a cancelled attempt hands the value back
+                            // and the same tag is sent again later)
+                            if reg > 0 {
+                                parked_at.lock().unwrap().insert(tag, reg);
+                            }
                             seq += 1;
                         }
                     }
@@ -988,16 +997,43 @@ fn wl_mpmc_inner<TX: TxOps, RX: RxOps>(
     ctx.check("C09", "per-producer-order-survives-every-schedule", !recv.is_empty(), order_bad.is_none(), || order_bad.clone().unwrap());
     let mut pair_bad = None;
     let tags: Vec<u64> = recv.keys().filter(|t| sent.contains_key(t)).copied().collect();
+    // a send took effect by the time its call returned - or, if its future had to wait, by the time the
+    // first poll returned Pending (C09: "the order in which their sends took effect (first poll of the send
+    // future, or the try_send call)")
+    let parked_at = parked_at.lock().unwrap();
+    let effect_by = |t: &u64| parked_at.get(t).copied().unwrap_or(sent[t]);
     if tags.len() <= 400 {
         for a in &tags {
             for b in &tags {
-                if a != b && sent[a] < sent_call[b] && recv[b].1 < recv[a].0 {
-                    pair_bad = Some(format!("send({:#x}) returned before send({:#x}) was called, but {:#x} was received strictly before {:#x}", a, b, b, a));
+                if a != b && effect_by(a) < sent_call[b] && recv[b].1 < recv[a].0 {
+                    pair_bad = Some(format!("send({:#x}) took effect (stamp {}) before send({:#x}) was called ({}), but {:#x} was received strictly before {:#x}", a, effect_by(a), b, sent_call[b], b, a));
                 }
             }
         }
     }
     ctx.check("C09", "fifo-linearizability-pair-condition", tags.len() > 1, pair_bad.is_none(), || pair_bad.clone().unwrap());
+    // C09 capacity: a value is inside the channel from the return of its (completed) send to the call of the
+    // receive that yields it; more than `cap` such intervals never overlap (cap 0: a send completes only after a
+    // receiver has taken the value, so the interval is empty)
+    let mut evs: Vec<(u64, i64)> = vec![];
+    for (t, ret) in &sent {
+        evs.push((*ret, 1));
+        if let Some(r) = recv.get(t) {
+            evs.push((r.0, -1));
+        }
+    }
+    evs.sort();
+    let (mut inside, mut peak, mut peak_at) = (0i64, 0i64, 0u64);
+    for (t, d) in &evs {
+        inside += d;
+        if inside > peak {
+            peak = inside;
+            peak_at = *t;
+        }
+    }
+    ctx.check("C09", "accepted-but-unreceived-values-never-exceed-capacity", !sent.is_empty(), peak <= cap as i64, || {
+        format!("at stamp {} {} sends had completed whose values no receive had been called for yet; capacity {}", peak_at, peak, cap)
+    });
     match verdict {
         Verdict::Finished => ctx.check("C10", "producers-and-consumers-with-abandoned-receives-terminate", true, true, String::new),
         Verdict::AllParked => {
